@@ -621,6 +621,8 @@ def check_scope(ctx, rep, scope):
     n += check_lookup_keys(ctx, rep, funcs)
     n += check_input_unmodified(ctx, rep, funcs)
     n += check_index_by_value(ctx, rep, funcs)
+    n += check_memo_keys(ctx, rep, funcs)
+    n += check_dedupe_keys(ctx, rep, funcs)
     return n
 
 
@@ -666,4 +668,94 @@ def check_index_by_value(ctx, rep, funcs, rule=RULE + '.index'):
                         continue
                     n += 1
                     rep.violates(rule, f, c, '{0}.index({1}) inside the loop over {0}: for an element that occurs twice in {0} this is the position of its FIRST occurrence both times, so the later positions are never visited (e.g. the second A in the right-hand side A S A)'.format(seq, var))
+    return n
+
+
+def _param_deps(f, expr, extra_stop=()):
+    """parameters of f (and of its enclosing functions) that the expression depends on through local assignments"""
+    params = set()
+    g = f
+    while g is not None:
+        params |= set(g.params)
+        g = g.parent
+    defs = {}
+    for st in walk_no_nested(f.node):
+        if isinstance(st, (ast.Assign, ast.AnnAssign)) and getattr(st, 'value', None) is not None:
+            tgts = st.targets if isinstance(st, ast.Assign) else [st.target]
+            for t in tgts:
+                for x in ast.walk(t):
+                    if isinstance(x, ast.Name) and isinstance(x.ctx, ast.Store):
+                        defs.setdefault(x.id, []).append(st.value)
+        elif isinstance(st, ast.For):
+            for x in ast.walk(st.target):
+                if isinstance(x, ast.Name):
+                    defs.setdefault(x.id, []).append(st.iter)
+    seen, out = set(), set()
+    work = [n.id for n in ast.walk(expr) if isinstance(n, ast.Name)]
+    while work:
+        n = work.pop()
+        if n in seen or n in extra_stop:
+            continue
+        seen.add(n)
+        if n in params and n not in defs:
+            out.add(n)
+            continue
+        if n in params:
+            out.add(n)
+        for d in defs.get(n, []):
+            work += [x.id for x in ast.walk(d) if isinstance(x, ast.Name)]
+    return out
+
+
+def check_memo_keys(ctx, rep, funcs, rule=RULE + '.memo'):
+    """`if key not in M: M[key] = V ... return M[key]`: the stored value may depend only on what the key determines.
+    Every parameter that V depends on must also be a parameter the key depends on (the container itself and `self`
+    excepted); otherwise the entry computed for one argument is returned for another."""
+    n = 0
+    for f in funcs:
+        stores = [st for st in walk_no_nested(f.node) if isinstance(st, ast.Assign) and len(st.targets) == 1 and isinstance(st.targets[0], ast.Subscript)]
+        if not stores:
+            continue
+        tests = [c for c in walk_no_nested(f.node) if isinstance(c, ast.Compare) and len(c.ops) == 1 and isinstance(c.ops[0], (ast.In, ast.NotIn))]
+        for st in stores:
+            M, key = st.targets[0].value, st.targets[0].slice
+            if not any(u(c.comparators[0]) == u(M) and u(c.left) == u(key) for c in tests):
+                continue
+            # a read of the same entry that is returned makes it a memo
+            reads = [r for r in walk_no_nested(f.node) if isinstance(r, ast.Return) and r.value is not None and any(isinstance(x, ast.Subscript) and u(x.value) == u(M) and u(x.slice) == u(key) for x in ast.walk(r.value))]
+            if not reads:
+                continue
+            container = {x.id for x in ast.walk(M) if isinstance(x, ast.Name)}
+            stop = container | {'self'}
+            vdeps = _param_deps(f, st.value, extra_stop=stop) - stop
+            kdeps = _param_deps(f, key, extra_stop=stop) - stop
+            n += 1
+            missing = sorted(vdeps - kdeps)
+            if missing:
+                rep.violates(rule, f, st, 'the memo {}[{}] stores a value that depends on the parameter(s) {} but the key does not: the entry computed for one value of {} is returned for another'.format(u(M), u(key), ', '.join(missing), missing[0]))
+            else:
+                rep.holds(rule, f, st, 'every parameter the memoised value depends on ({}) is determined by the key'.format(', '.join(sorted(vdeps)) or 'none'))
+    return n
+
+
+def check_dedupe_keys(ctx, rep, funcs, rule=RULE + '.key'):
+    """{enc(x): x for x in xs} -- elements are identified by enc(x); a non-injective encoding drops distinct elements"""
+    n = 0
+    for f in funcs:
+        for c in walk_no_nested(f.node):
+            if not (isinstance(c, ast.DictComp) and len(c.generators) == 1 and isinstance(c.generators[0].target, ast.Name)):
+                continue
+            x = c.generators[0].target.id
+            if not any(isinstance(v, ast.Name) and v.id == x for v in ast.walk(c.value)):
+                continue
+            en = Encoder(ctx, f, {x: x}).enc(c.key)
+            if en.kind == CONST or (en.kind == INJ and x not in en.covered):
+                continue
+            n += 1
+            if en.kind == NOT:
+                rep.violates(rule, f, c, 'the elements of {} are de-duplicated by the key {}, which does not identify them: {} -- distinct elements are merged and one of them is dropped'.format(u(c.generators[0].iter), u(c.key), en.reason))
+            elif en.kind == UNK:
+                rep.undecided(rule, f, c, 'de-duplication key not understood: {}'.format(en.reason))
+            else:
+                rep.holds(rule, f, c, 'the de-duplication key is an injective encoding of the element')
     return n
